@@ -108,6 +108,12 @@ extern bool g_replaying;
 // hash of the descriptor of the case being executed (set by every driver before the sub's run function): lets shared helpers
 // (spq::maybe_bystander) make per-case choices that are a pure function of the descriptor, so that a replay repeats them
 inline uint64_t g_case_hash = 0;
+// One case in sixteen (a pure function of the descriptor) is executed on a freshly created thread instead of the main thread:
+// thread-local caches start empty there, "first use" state is fresh, and objects are built by a thread that is not the one that
+// initialised the library.  g_side_thread is true while such a case runs; helpers use it to build fresh objects (spq::modules()).
+inline thread_local bool g_side_thread = false;
+// actions to run (on the main thread) after the current case: e.g. destroy objects created for a side-thread case
+inline std::vector<std::function<void()>> g_case_cleanup;
 
 }  // namespace vh
 
